@@ -666,6 +666,15 @@ func (s *Stream) ProcessSync(data map[string]any) (map[string]any, error) {
 func (s *Stream) enrichData(data map[string]any) (dataMap map[string]any, keep bool, err error) {
 	dataMap = data
 	if !s.hasJoin() {
+		// Analytic outputs and function group keys are written into the row so
+		// that WHERE/GROUP BY can reference them; do that on a shallow copy, the
+		// caller's map must stay exactly as it was passed in.
+		if s.injectsIntoRow() {
+			dataMap = make(map[string]any, len(data)+4)
+			for k, v := range data {
+				dataMap[k] = v
+			}
+		}
 		return dataMap, true, nil
 	}
 	wm, k, jerr := s.enrichJoin(data)
@@ -676,6 +685,23 @@ func (s *Stream) enrichData(data map[string]any) (dataMap map[string]any, keep b
 		return dataMap, false, nil // INNER JOIN 无匹配：丢弃
 	}
 	return wm, true, nil
+}
+
+// injectsIntoRow reports whether processing writes extra keys into the row map:
+// analytic function outputs (SELECT aliases, WHERE placeholders) or evaluated
+// function group keys such as upper(device).
+func (s *Stream) injectsIntoRow() bool {
+	if len(s.config.AnalyticFields) > 0 || len(s.config.WhereAnalyticCalls) > 0 {
+		return true
+	}
+	if s.config.NeedWindow {
+		for _, gf := range s.config.GroupFields {
+			if strings.Contains(gf, "(") {
+				return true
+			}
+		}
+	}
+	return false
 }
 
 // applyWhereAndAnalytic 按 WHERE 是否引用分析函数决定求值序，并应用 WHERE 过滤。
